@@ -16,6 +16,7 @@ serde_json itself (type-directed JSON, 64-bit integer edges, control / non-ASCII
 128-bit times, all 256 raw byte values).
 -/
 import Cacache.Lemmas.ReadBack
+import Cacache.Lemmas.Stream
 import Cacache.Props.C05
 import Cacache.Lemmas.CodecLaws
 
@@ -59,7 +60,8 @@ theorem time_recorded (key : Bytes) (o : WriteOpts) (b0 : Bytes) (fs : FS)
     (hr : (run env (insert cfg cache key o) fs).1 = .ok s) :
     ∃ tm, (∀ t, o.time = some t → tm = t) ∧
       (run env (insert cfg cache key o) fs).2.1.get (bucketPath cfg cache key) =
-        some (.file (b0 ++ (codec cfg).frame (mkRec key o tm))) :=
+        some (.file (b0 ++ (codec cfg).frame (mkRec key o tm))) ∧
+      ((∀ t, o.time = some t → t ≤ timeMax) → tm ≤ timeMax) :=
   (wpD_run (insert_bucket_wp cfg env cache key o b0 hb)).2 s hr
 
 /-- The default timestamp really is the clock: with no explicit time the healthy run asks the
@@ -96,5 +98,25 @@ theorem metadata_returned_cacache (fs' : FS) (key : Bytes) (o : WriteOpts) (ho :
     | none => simpa using hn
     | some n => simpa using ho.size n hs
   exact mkRec_wf key _ tm ((ho.with_computed cfg.H a data).with_size _ hsz) htm
+
+/-- **C11, end to end.**  Any flavour, key, well-formed options (no declared integrity), chunking,
+any initial state with a valid store whose bucket for the key is absent or a regular file: if the
+keyed write answers ok, the lookup in the resulting state returns exactly what was supplied — the
+key, the digest of the bytes, the explicit time stamp (else a `u128` clock answer), the declared
+size (else the byte count), the JSON metadata (else null) and the raw metadata. -/
+theorem write_then_metadata (fl : Flavour) (key : Bytes) (o : WriteOpts) (ho : OptsWF key o)
+    (hnone : o.sri = none) (chunks : List Bytes) (hlen : chunks.flatten.length ≤ Rec.u64Max) (b0 : Bytes)
+    (fs : FS) (hv : ContentValid cfg cache fs) (hb : BucketIs fs (bucketPath cfg cache key) b0)
+    (sri : Integrity) (hok : (run env (writeStream cfg cache fl (some key) o chunks) fs).1 = .ok sri) :
+    ∃ tm, (∀ t, o.time = some t → tm = t) ∧ tm ≤ timeMax ∧
+      (run env (find cfg cache key) (run env (writeStream cfg cache fl (some key) o chunks) fs).2.1).1 =
+        .ok (some { key := key, sri := Sri.compute cfg.H (o.algo.getD .sha256) chunks.flatten, time := tm,
+                    size := o.size.getD chunks.flatten.length, metadata := o.metadata.getD .null, raw := o.raw }) := by
+  have hw := (wpD_run (writeStream_keyed_wp cfg env cache fl key o chunks b0 hv hb)).2
+  have hs := (hw.1 sri hok).2.1 hnone
+  obtain ⟨tm, htm, hbucket, hle⟩ := hw.2 sri hok
+  subst hs
+  exact ⟨tm, htm, hle ho.time, metadata_returned_cacache cfg env cache _ key o ho _ chunks.flatten b0 tm
+    (hle ho.time) chunks.flatten.length hlen hbucket⟩
 
 end Cacache.C11
